@@ -3,7 +3,7 @@ import json, os
 import vf
 
 PKG = "."
-FILES = ["vf_replica_verif_test.go", "vf_grouplog_verif_test.go"]
+FILES = ["vf_replica_verif_test.go", "vf_grouplog_verif_test.go", "vf_grouplog2_verif_test.go"]
 DRV = "^TestVerifGroupLog$"
 MON = ("MonGroupLog", "Mon_GroupLog.cfg")
 
@@ -31,8 +31,12 @@ def gen(ctx, prop):
     quick = ctx.tier == "quick"
     plans = {
         # (ops, contacts, groups, MaxEntries, MaxLen, WithList, walks)
-        "C04": [('{"en", "dis", "rs"}', 1, 1, 3, 6, False, 350), ('{"enq", "blk", "unb", "recv", "acc"}', 1, 1, 4, 8, False, 350),
-                (ALLOPS, 2, 1, 4, 9, False, 300)],
+        "C04": [('{"en", "dis", "rs"}', 1, 1, 3, 6, False, 250), ('{"enq", "blk", "unb", "recv", "acc"}', 1, 1, 4, 8, False, 250),
+                (ALLOPS, 2, 1, 4, 9, False, 200),
+                # contact / multi-member groups (members, devices, admins, alias keys), incl. partial batches (raw deliveries)
+                ('{"adddev", "alias", "secretA", "secretB", "meta"}', 1, 1, 4, 9, False, 250, "contact"),
+                ('{"adddev", "claim", "secretA", "secretB", "meta"}', 1, 1, 4, 9, False, 150, "multi"),
+                ('{"en", "dis", "rs", "enq", "blk"}', 1, 1, 3, 7, False, 150, "account-raw")],
         "C07": [('{"enq", "sent", "recv", "disc", "acc", "blk", "unb"}', 1, 1, 5, 7, False, 500),
                 ('{"enq", "sent", "recv", "disc", "acc", "blk", "unb"}', 2, 1, 6, 9, False, 400)],
         "C13": [('{"en", "dis", "rs"}', 1, 1, 3, 7, True, 400), ('{"en", "dis", "rs", "enq", "blk"}', 1, 1, 5, 10, True, 300),
@@ -40,16 +44,20 @@ def gen(ctx, prop):
     }[prop]
     mult = 1 if quick else 8
     scripts = []
-    for k, (ops, nc, ng, me, ml, wl, walks) in enumerate(plans):
+    for k, plan in enumerate(plans):
+        (ops, nc, ng, me, ml, wl, walks) = plan[:7]
+        world = plan[7] if len(plan) > 7 else "account"
         consts = {"Ops": ops, "Contacts": "{" + ", ".join('"c%d"' % (i + 1) for i in range(nc)) + "}",
                   "Groups": "{" + ", ".join('"g%d"' % (i + 1) for i in range(ng)) + "}",
                   "MaxEntries": str(me), "MaxLen": str(ml), "WithList": "TRUE" if wl else "FALSE"}
-        if prop == "C07":
-            consts["Devs"] = '{"a1", "a2"}'
+        if world in ("contact", "multi"):
+            consts["Devs"] = '{"a1", "b1", "b2"}'
+        consts["WithRaw"] = "TRUE" if world != "account" else "FALSE"
         r = ctx.tlc("GenGroupLog", "Gen_GroupLog.cfg", name="sim_%s_%d" % (prop, k), workers=1, simulate="num=%d" % (walks * mult),
                     depth=ml + 2, consts=consts, timeout=1500, heap="8g")
         hs = r.printed.get("SCRIPT", [])
-        sc = vf.scripts_from_tlc(hs, cfg={"contacts": nc, "groups": ng, "plan": k, "log": "message" if ops == '{"msg"}' else "metadata"},
+        sc = vf.scripts_from_tlc(hs, cfg={"contacts": nc, "groups": ng, "plan": k, "log": "message" if ops == '{"msg"}' else "metadata",
+                                                   "world": world.replace("-raw", "")},
                                  start_id=len(scripts), limit=walks * mult, rng=ctx.rng)
         scripts += sc
     for i, s in enumerate(scripts):
